@@ -89,6 +89,8 @@ func (e Event) Short() string {
 		return fmt.Sprintf("obs(m%d,k%d,%s)", e.Msg, e.Signer, e.Variant)
 	case "inbound":
 		return fmt.Sprintf("inbound(m%d,%s)", e.Msg, e.Variant)
+	case "restart":
+		return "restart"
 	}
 	return e.Kind
 }
@@ -211,6 +213,12 @@ func has(keys []ethcommon.Address, a ethcommon.Address) bool {
 }
 
 func (md *Model) OnSet(g *GSet) { md.Cur = g }
+
+// OnRestart: the process restarts. Memory is lost (entries, guardian set); the store stays.
+func (md *Model) OnRestart() {
+	md.ent = map[string]*mEnt{}
+	md.Cur = nil
+}
 
 func (md *Model) OnMsg(m *Msg) Expect {
 	var ex Expect
@@ -389,6 +397,12 @@ func RunDirect2(rig *Rig, sc *Scenario, md *Model, pre func(int, Event), cb func
 				}
 			}()
 			switch e.Kind {
+			case "restart":
+				md.OnRestart()
+				pending = map[int][]*gossipv1.SignedObservation{}
+				if err := rig.Restart(); err != nil {
+					rec.Event.Note = "restart failed: " + err.Error()
+				}
 			case "set":
 				md.OnSet(sc.Sets[e.Set])
 				rig.P.VerifSetGuardianSet(sc.Sets[e.Set].Common())
@@ -444,6 +458,7 @@ type GenOpts struct {
 	Serial   uint64 // makes message ids unique across scenarios sharing a store
 	Hostile  bool   // include invalid traffic and inbound VAAs
 	SetMoves bool   // allow set updates after the first event
+	Restarts bool   // a process restart (store kept, memory lost) somewhere in a quarter of the scenarios (direct mode only)
 }
 
 func mkSet(rng *rand.Rand, index uint32, n, nodePos int, avoid map[int]bool, reuse []int) *GSet {
@@ -678,8 +693,37 @@ func Gen(rng *rand.Rand, o GenOpts) *Scenario {
 			}
 		}
 	}
+	restartNote := ""
+	if o.Restarts && rng.Intn(4) == 0 && len(evs) > 3 {
+		// the guardian process restarts somewhere: what was stored stays stored, every pending aggregation is forgotten, and the
+		// guardian set arrives anew from the chain. Afterwards one message is observed (again) and signed by everybody.
+		at := 2 + rng.Intn(len(evs)-2)
+		curSet := 0
+		for _, e := range evs[:at] {
+			if e.Kind == "set" {
+				curSet = e.Set
+			}
+		}
+		ins := []Event{{Kind: "restart"}, {Kind: "set", Set: curSet}}
+		mi := rng.Intn(len(sc.Msgs))
+		tail := []Event{{Kind: "msg", Msg: mi}, {Kind: "loopback", Msg: mi}}
+		lastSet := curSet
+		for _, e := range evs[at:] {
+			if e.Kind == "set" {
+				lastSet = e.Set
+			}
+		}
+		for _, k := range sc.Sets[lastSet].Pool {
+			if k != NodeKey {
+				tail = append(tail, Event{Kind: "obs", Msg: mi, Signer: k, Variant: "valid", Obs: MkObs(sc.Msgs[mi], sc.Msgs[mi].Digest, k, "valid", rng, ethcommon.Address{})})
+			}
+		}
+		evs = append(evs[:at], append(ins, evs[at:]...)...)
+		evs = append(evs, tail...)
+		restartNote = " restart"
+	}
 	sc.Events = evs
-	sc.Desc = fmt.Sprintf("n=%d nodePos=%d sets=%d msgs=%d hostile=%v", o.N, o.NodePos, o.NSets, o.NMsgs, o.Hostile)
+	sc.Desc = fmt.Sprintf("n=%d nodePos=%d sets=%d msgs=%d hostile=%v%s", o.N, o.NodePos, o.NSets, o.NMsgs, o.Hostile, restartNote)
 	return sc
 }
 
